@@ -1,0 +1,77 @@
+// Copyright (c) 2024 10X Genomics, Inc. All rights reserved.
+
+package core
+
+import (
+	"bytes"
+	"fmt"
+	"unicode"
+	"unicode/utf16"
+)
+
+// hex4 parses the first four bytes of b as a hexadecimal number.
+func hex4(b []byte) (rune, bool) {
+	if len(b) < 4 {
+		return 0, false
+	}
+	var r rune
+	for _, c := range b[:4] {
+		switch {
+		case '0' <= c && c <= '9':
+			c -= '0'
+		case 'a' <= c && c <= 'f':
+			c -= 'a' - 10
+		case 'A' <= c && c <= 'F':
+			c -= 'A' - 10
+		default:
+			return 0, false
+		}
+		r = r<<4 | rune(c)
+	}
+	return r, true
+}
+
+// mroLiteralFromJson rewrites the two string escapes which are valid json
+// but which the mro string token either does not accept or decodes
+// differently: the escaped solidus `\/`, and a code point outside the basic
+// multilingual plane written as a utf-16 surrogate pair of two `\u` escapes
+// (the only way to escape such a code point in json, and what for example
+// python's json.dumps emits by default).  All other json is valid mro with
+// the same meaning, and is returned unchanged.
+func mroLiteralFromJson(b []byte) []byte {
+	if !bytes.Contains(b, []byte(`\/`)) && !bytes.Contains(b, []byte(`\u`)) {
+		return b
+	}
+	out := make([]byte, 0, len(b))
+	inString := false
+	for i := 0; i < len(b); i++ {
+		c := b[i]
+		if !inString || c != '\\' || i+1 >= len(b) {
+			if c == '"' {
+				inString = !inString
+			}
+			out = append(out, c)
+			continue
+		}
+		i++
+		switch b[i] {
+		case '/':
+			out = append(out, '/')
+		case 'u':
+			if r1, ok := hex4(b[i+1:]); ok && utf16.IsSurrogate(r1) &&
+				len(b) > i+6 && b[i+5] == '\\' && b[i+6] == 'u' {
+				if r2, ok := hex4(b[i+7:]); ok {
+					if r := utf16.DecodeRune(r1, r2); r != unicode.ReplacementChar {
+						out = fmt.Appendf(out, `\U%08x`, r)
+						i += 10
+						continue
+					}
+				}
+			}
+			out = append(out, '\\', 'u')
+		default:
+			out = append(out, '\\', b[i])
+		}
+	}
+	return out
+}
